@@ -104,6 +104,60 @@ func init() {
 				internal[f] = true
 			}
 			var obs []Obligation
+			// begun: the call node is dominated by `defer beginEval()()` in the body it sits in
+			begun := func(u FuncUnit, lit *ast.FuncLit, body *ast.BlockStmt, call ast.Node) bool {
+				info := u.Pkg.TypesInfo
+				fc := c.cfgOf(u, lit)
+				loc, ok := fc.Locate(call)
+				if !ok {
+					return false
+				}
+				for _, b2 := range fc.G.Blocks {
+					for j, m := range b2.Nodes {
+						if d, ok := m.(*ast.DeferStmt); ok && fc.Live(b2) && (isBeginEvalDefer(info, d, begin) || beginEvalClosedByDefer(info, fc, Loc{b2, j}, d, begin, body)) &&
+							fc.Dominates(Loc{b2, j}, loc) && !(b2 == loc.B && j == loc.I) {
+							return true
+						}
+					}
+				}
+				return false
+			}
+			// liftedToCallers: an unexported function that is never taken as a value and whose every
+			// call site (all in package lisp) lies behind a begun evaluation — in the caller, or by the
+			// same argument one level up — does not begin one itself: `Eval` keeps the
+			// `defer beginEval()()` and hands the rest to `evalRestoringLocation`
+			var liftedToCallers func(fn *types.Func, depth int) bool
+			liftedToCallers = func(fn *types.Func, depth int) bool {
+				if fn == nil || fn.Exported() || depth > 2 {
+					return false
+				}
+				sites, refs := c.CallsTo(nil, fn)
+				if len(refs) > 0 || len(sites) == 0 {
+					return false
+				}
+				for _, s := range sites {
+					if rel(s.Unit.Pkg.PkgPath) != "lisp" {
+						return false
+					}
+					var body *ast.BlockStmt
+					if s.Lit != nil {
+						body = s.Lit.Body
+					} else if s.Unit.Decl != nil {
+						body = s.Unit.Decl.Body
+					}
+					if body == nil {
+						return false
+					}
+					if begun(s.Unit, s.Lit, body, s.Call) {
+						continue
+					}
+					if s.Lit == nil && liftedToCallers(s.Unit.Obj, depth+1) {
+						continue
+					}
+					return false
+				}
+				return true
+			}
 			for _, u := range c.Funcs(func(p string) bool { return rel(p) == "lisp" }) {
 				if internal[u.Obj] {
 					continue
@@ -137,6 +191,8 @@ func init() {
 								}
 								if dom {
 									obs = append(obs, mkOb(c, "ENTRY.begin-eval", u, construct, ce, Proved, "dominated by `defer beginEval()()`", true))
+								} else if bu.Lit == nil && liftedToCallers(u.Obj, 0) {
+									obs = append(obs, mkOb(c, "ENTRY.begin-eval", u, construct, ce, Proved, "private helper: every call of it lies behind `defer beginEval()()` in its caller", true))
 								} else {
 									obs = append(obs, mkOb(c, "ENTRY.begin-eval", u, construct, ce, Violated,
 										"entry into the evaluator without `defer Runtime.beginEval()()` before it: the step budget is not reset for this top-level evaluation and evalDepth is not balanced", true))
